@@ -18,6 +18,7 @@ import (
 	"github.com/welllog/golib/randz"
 	"github.com/welllog/golib/zzsim/core"
 	"github.com/welllog/golib/zzsim/scrand"
+	"github.com/welllog/golib/zzsim/shashz"
 	"github.com/welllog/golib/zzsim/smrand"
 	"github.com/welllog/golib/zzsim/stime"
 )
@@ -510,22 +511,29 @@ func countGen(c *sim.Case, r *sim.Rng, out *sim.WorkerOut, dg *engc.Digest) (*si
 			out.Probes["equal_periods"]++
 		}
 	}
-	id := fmt.Sprintf("id-%d", c.P("id"))
-	prev := 0
-	for d := 0; d <= c.P("T"); d++ {
-		got := g.Generate(id, d)
-		lo, hi := g.Min(d), g.Max(d)
-		if got < prev {
-			return viol("shape:CountGenerator.Generate", "(*CountGenerator).Generate", "Generate(%q,%d) = %d < Generate(%q,%d) = %d", id, d, got, id, d-1, prev), true
+	// several identifiers per case: each gets its own hash value from the simulator
+	shashz.Reset()
+	for n := 0; n < 3; n++ {
+		id := fmt.Sprintf("id-%d-%d", c.P("id"), n)
+		prev := 0
+		for d := 0; d <= c.P("T"); d++ {
+			got := g.Generate(id, d)
+			lo, hi := g.Min(d), g.Max(d)
+			if got < prev {
+				return viol("shape:CountGenerator.Generate", "(*CountGenerator).Generate", "Generate(%q,%d) = %d < Generate(%q,%d) = %d", id, d, got, id, d-1, prev), true
+			}
+			if got < lo || got > hi {
+				return viol("shape:CountGenerator.Generate", "(*CountGenerator).Generate", "Generate(%q,%d) = %d outside [Min,Max] = [%d,%d]", id, d, got, lo, hi), true
+			}
+			prev = got
 		}
-		if got < lo || got > hi {
-			return viol("shape:CountGenerator.Generate", "(*CountGenerator).Generate", "Generate(%q,%d) = %d outside [Min,Max] = [%d,%d]", id, d, got, lo, hi), true
-		}
-		prev = got
+		dg.Add(prev)
 	}
-	dg.Add(prev)
 	out.Faults["elapsed_time_sweep"]++
-	adversarial := false
+	if shashz.Extremes > 0 {
+		out.Faults["identifier_hash_at_an_extreme_of_its_range"] += shashz.Extremes
+	}
+	adversarial := shashz.Extremes > 0
 	for k, n := range periods {
 		if n > 1 {
 			adversarial = true
